@@ -36,9 +36,18 @@ extern "C" vp_info const *vp_get_info(void) { return &info; }
 // The comparison contract is the sign of the result only; the style is fixed per history (0: -1/0/+1, 1: difference,
 // 2: difference * 1000, 3: INT_MIN/0/INT_MAX, 4..7: asymmetric mixes).
 static int g_cmp_style = 0;
+static int cmp_shape2(int x, int y);
+// left argument: an element; right argument: a probe whose single byte holds the complement of the key
+static int cmp_elem_probe(void const *a, void const *b)
+{
+    return cmp_shape2(*(uint8_t const *)a, uint8_t(~*(uint8_t const *)b));
+}
 static int cmp_first(void const *a, void const *b)
 {
-    int x = *(uint8_t const *)a, y = *(uint8_t const *)b;
+    return cmp_shape2(*(uint8_t const *)a, *(uint8_t const *)b);
+}
+static int cmp_shape2(int x, int y)
+{
     int s = (x > y) - (x < y);
     switch (g_cmp_style & 7)
     {
@@ -561,7 +570,12 @@ static void op_push_sort(Run &r, Box &b, Tape &t)
         uint64_t fb = g_shim.faults;
         size_t oldnum = b.num();
         std::vector<Elem> want = b.m;
-        void *p = b.is_buf ? a_buf_push_sort(b.b, e.data(), cmp_first) : a_vec_push_sort(b.v, e.data(), cmp_first);
+        // the key is "on the right" of every comparison (header text): half of the time it is a probe object of another layout
+        // (one byte holding the complement of the key) with a comparator that decodes its right argument accordingly
+        uint8_t probe = uint8_t(~key);
+        bool hetero = (r.opno & 1) != 0;
+        void *p = hetero ? (b.is_buf ? a_buf_push_sort(b.b, &probe, cmp_elem_probe) : a_vec_push_sort(b.v, &probe, cmp_elem_probe))
+                         : (b.is_buf ? a_buf_push_sort(b.b, e.data(), cmp_first) : a_vec_push_sort(b.v, e.data(), cmp_first));
         r.cx.log("%s push_sort key %u -> %s\n", b.is_buf ? "buf" : "vec", key, p ? "ok" : "null");
         if (!p)
         {
